@@ -112,7 +112,8 @@ func (fc *fctx) instr(ins ssa.Instruction) {
 		mt := x.Type().Underlying().(*types.Map)
 		md, _, ks, _ := u.mapComps(mt)
 		tr.setComp(md, fmt.Sprintf("(store %s %s ((as const (Array %s Bool)) false))", tr.cur.get(u, md), a, ks))
-		tr.setComp("MLen", fmt.Sprintf("(store %s %s 0)", tr.cur.get(u, "MLen"), a))
+		ml := u.mapLen(mt)
+		tr.setComp(ml, fmt.Sprintf("(store %s %s 0)", tr.cur.get(u, ml), a))
 		fc.vals[x] = []*Val{mkVal(a, "Int", x.Type())}
 	case *ssa.MakeSlice:
 		a := tr.alloc()
@@ -241,6 +242,25 @@ func (fc *fctx) unop(x *ssa.UnOp) {
 		fc.derefCheck(x.X, x.Pos())
 		et := x.X.Type().Underlying().(*types.Pointer).Elem()
 		fc.setVal(x, tr.loadTag(tr.cur, fc.val(x.X).E(), et, fc.addrTag(x.X)))
+		// a package-level []byte("literal") that is never written: its JSON value is the literal's
+		if g, ok := x.X.(*ssa.Global); ok {
+			if lit, ok := tr.constGlobalLiteral(g); ok {
+				tr.jsonLiteralFacts(fc.val(x), lit)
+				tr.trusted["package-level []byte literals that no function writes (jsTrue, jsFalse) hold their initial value; their bytes are not modified through aliases"] = true
+			}
+		}
+		// data[0] of a byte slice: the first byte of the text the slice holds (byte slices that carry JSON are
+		// never written after they are produced: jv() and jbyte0() are functions of the slice value)
+		if ia, ok := x.X.(*ssa.IndexAddr); ok {
+			if st, ok := ia.X.Type().Underlying().(*types.Slice); ok {
+				if bt, ok := st.Elem().Underlying().(*types.Basic); ok && bt.Kind() == types.Uint8 {
+					if c, ok := ia.Index.(*ssa.Const); ok && c.Value != nil && c.Value.ExactString() == "0" {
+						tr.jsonDecls()
+						tr.assume(eq(fc.val(x).E(), "(jbyte0 "+fc.val(ia.X).E()+")"))
+					}
+				}
+			}
+		}
 	case token.NOT:
 		fc.setVal(x, mkVal(not(fc.val(x.X).E()), "Bool", x.Type()))
 	case token.SUB:
@@ -394,7 +414,8 @@ func (fc *fctx) mapUpdate(x *ssa.MapUpdate) {
 	md, mv, _, _ := u.mapComps(mt)
 	dom := "(select " + tr.cur.get(u, md) + " " + m.E() + ")"
 	was := tr.define(fc.prefix+"was", "Bool", "(select "+dom+" "+k.E()+")")
-	tr.setComp("MLen", fmt.Sprintf("(store %s %s (+ (select %s %s) %s))", tr.cur.get(u, "MLen"), m.E(), tr.cur.get(u, "MLen"), m.E(), ite(was, "0", "1")))
+	ml := u.mapLen(mt)
+	tr.setComp(ml, fmt.Sprintf("(store %s %s (+ (select %s %s) %s))", tr.cur.get(u, ml), m.E(), tr.cur.get(u, ml), m.E(), ite(was, "0", "1")))
 	tr.setComp(md, fmt.Sprintf("(store %s %s (store %s %s true))", tr.cur.get(u, md), m.E(), dom, k.E()))
 	vals := "(select " + tr.cur.get(u, mv) + " " + m.E() + ")"
 	tr.setComp(mv, fmt.Sprintf("(store %s %s (store %s %s %s))", tr.cur.get(u, mv), m.E(), vals, k.E(), v.E()))
@@ -590,7 +611,19 @@ func (fc *fctx) call(cc *ssa.CallCommon, pos token.Pos, site *ssa.Call) []*Val {
 	}
 	var args []*Val
 	for _, a := range cc.Args {
-		args = append(args, fc.val(a))
+		v := fc.val(a)
+		// a pointer to a leaf cell carries the partition of the cell it designates (a struct field, a slice element):
+		// the callee's contract reads and writes *p there
+		if pt, ok := a.Type().Underlying().(*types.Pointer); ok && v.Tag == "" {
+			if st, _ := structOf(pt.Elem()); st == nil {
+				if tag := fc.addrTag(a); tag != "cell" {
+					cp := *v
+					cp.Tag = tag
+					v = &cp
+				}
+			}
+		}
+		args = append(args, v)
 	}
 	if cc.IsInvoke() {
 		recv := fc.val(cc.Value)
@@ -793,7 +826,9 @@ func (fc *fctx) builtin(b *ssa.Builtin, cc *ssa.CallCommon, pos token.Pos, site 
 		case "String":
 			return []*Val{intVal("(str.len " + v.E() + ")")}
 		case "Int":
-			return []*Val{intVal("(select " + tr.cur.get(u, "MLen") + " " + v.E() + ")")}
+			if mt, ok := cc.Args[0].Type().Underlying().(*types.Map); ok {
+				return []*Val{intVal("(select " + tr.cur.get(u, u.mapLen(mt)) + " " + v.E() + ")")}
+			}
 		}
 		unsup("len of %s", v.Sort)
 	case "cap":
@@ -808,7 +843,8 @@ func (fc *fctx) builtin(b *ssa.Builtin, cc *ssa.CallCommon, pos token.Pos, site 
 		dom := "(select " + tr.cur.get(u, md) + " " + m.E() + ")"
 		was := tr.define(fc.prefix+"was", "Bool", "(select "+dom+" "+k.E()+")")
 		// deleting from a nil map is a no-op
-		tr.setComp("MLen", fmt.Sprintf("(store %s %s (- (select %s %s) %s))", tr.cur.get(u, "MLen"), m.E(), tr.cur.get(u, "MLen"), m.E(), ite(was, "1", "0")))
+		ml := u.mapLen(mt)
+		tr.setComp(ml, fmt.Sprintf("(store %s %s (- (select %s %s) %s))", tr.cur.get(u, ml), m.E(), tr.cur.get(u, ml), m.E(), ite(was, "1", "0")))
 		tr.setComp(md, fmt.Sprintf("(store %s %s (store %s %s false))", tr.cur.get(u, md), m.E(), dom, k.E()))
 		return []*Val{}
 	case "recover":
@@ -990,6 +1026,10 @@ func (fc *fctx) addrTag(v ssa.Value) string {
 		return fc.addrTag(x.X)
 	case *ssa.Alloc, *ssa.Global:
 		return "cell"
+	}
+	// a pointer received as an argument (inlined call) keeps the partition of the cell the caller designated
+	if vs, ok := fc.vals[v]; ok && len(vs) == 1 && vs[0].Tag != "" {
+		return vs[0].Tag
 	}
 	// a pointer of unknown origin to a leaf value: pointers stored in the document model designate
 	// stand-alone variables (never the middle of a struct or a slice element)
